@@ -1,7 +1,7 @@
 (** C01 — the plain KV API is last-writer-wins under any background maintenance.
 
     Model: Model/Lsm.v (read path and maintenance of the LSM tree, as the code
-    is after the repair of the L0 tie rule).  Spec: Spec/MvccSpec.v
+    is after the repairs of the L0 tie rule and of the first-hit rule).  Spec: Spec/MvccSpec.v
     ([latest_at]: greatest version, then most recent acknowledgement — for the
     plain API every write carries the same sentinel version, so this is "last
     writer wins").
@@ -10,8 +10,8 @@
     ([C01_lww_refuted]: two L0 tables holding the same plain key move into one
     ingest buffer, which orders them by key range — known finding C01-F2).
     What is proved for every state: the read path returns exactly the latest
-    acknowledged write whenever the sources are ordered by recency
-    ([C01_reads_latest]); the preservation of that ordering by each maintenance
+    acknowledged write whenever the copies of one internal key are ordered by
+    recency along the scan ([C01_reads_latest]); the preservation of that ordering by each maintenance
     step is in Properties/C01 (memtable / L0 part) and otherwise checked on
     every replayed trace by the correspondence. *)
 From Coq Require Import List NArith.
@@ -19,14 +19,16 @@ From NoKV Require Import Base.Bytes Model.Lsm Spec.MvccSpec Spec.LsmSpec
      Proofs.LsmOrder Proofs.LsmRead Proofs.LsmGet Proofs.LsmMain Proofs.LsmWitness.
 
 Theorem C01_reads_latest : forall s ws k v,
-  src_inv s -> tier_inv (tiers_of s) -> content_ok s ws -> seq_functional ws ->
+  src_inv s -> scan_inv (scan_srcs s) -> content_ok s ws -> seq_functional ws ->
   get s k v = latest_at ws k v.
 Proof. exact get_latest. Qed.
 Print Assumptions C01_reads_latest.
 
-(** The pruned, structured search equals scanning every source tier by tier. *)
-Theorem C01_pruning_sound : forall s k v, src_inv s -> get s k v = tget k v (tiers_of s).
-Proof. exact get_is_tget. Qed.
+(** The pruned, structured search (range tests, max-version pruning, binary
+    search of the main tables, early exit on an exact version) equals scanning
+    every source in order and keeping the greatest version <= v. *)
+Theorem C01_pruning_sound : forall s k v, src_inv s -> get s k v = tier_best k v (scan_srcs s).
+Proof. exact get_is_flat. Qed.
 Print Assumptions C01_pruning_sound.
 
 Theorem C01_lww_refuted :
@@ -43,9 +45,8 @@ Print Assumptions C01_oracle_decides.
 (** Last-writer-wins for whole histories of writes, memtable rotations and
     flushes (any length): the invariant of [C01_reads_latest] holds initially
     and is preserved by each step (Proofs/LsmPreserve.v).  [puts_monotone]:
-    each write has a positive version, a fresh larger acknowledgement index and
-    is at least as recent as the earlier writes of its key — true of every
-    plain-API history (equal sentinel versions). *)
+    each write has a positive version and a fresh larger acknowledgement index
+    (ghost state) — true of every plain-API history. *)
 From NoKV Require Import Proofs.LsmInv Proofs.LsmPreserve.
 
 Theorem C01_lww_memtables_l0 : forall m ops,
@@ -79,12 +80,12 @@ Print Assumptions C01_lww_plain_api.
 From NoKV Require Import Spec.LsmInvB Proofs.LsmCompact Proofs.LsmChecked.
 
 Theorem C01_checker_sound : forall s,
-  tier_inv_b s = true -> src_inv s /\ tier_inv (tiers_of s).
+  tier_inv_b s = true -> src_inv s /\ scan_inv (scan_srcs s).
 Proof. exact tier_inv_b_sound. Qed.
 Print Assumptions C01_checker_sound.
 
 Theorem C01_checker_decides : forall s,
-  tier_inv_b s = true <-> src_inv s /\ tier_inv (tiers_of s).
+  tier_inv_b s = true <-> src_inv s /\ scan_inv (scan_srcs s).
 Proof. exact tier_inv_b_decides. Qed.
 Print Assumptions C01_checker_decides.
 
